@@ -1,36 +1,35 @@
 (* C03 - reads never return corrupted content as if it were valid.
    Statements only; proofs are in Proofs/CafsReadAt.v, CafsReadSeq.v, CafsWriteTo.v.
    The store s is arbitrary (any damage whatsoever, not only single corruptions); H is any hash
-   with 64-byte digests that is collision free jointly in its tree parameters and data
-   (cryptographic assumption, stated as hypotheses - not an axiom). *)
+   with 64-byte digests such that no input collides with one of the honest inputs of the content
+   (nocoll: jointly in tree parameters and data; a cryptographic assumption stated as a
+   hypothesis - not an axiom - and satisfiable, see C01_premises_satisfiable). *)
 From Coq Require Import List NArith Arith Bool.
 From DM Require Import Model.Cafs Proofs.CafsStore Proofs.CafsReadAt Proofs.CafsReadSeq Proofs.CafsWriteTo.
 Import ListNotations.
 
 Definition digest64 (H : N -> N -> N -> bool -> list N -> list N) : Prop :=
   forall l o d b x, length (H l o d b x) = KS.
-Definition collision_free (H : N -> N -> N -> bool -> list N -> list N) : Prop :=
-  forall l o d b x o' d' b' x', H l o d b x = H l o' d' b' x' -> o = o' /\ d = d' /\ b = b' /\ x = x'.
 
 (* random access: a read that succeeds returned the requested window of the content *)
-Theorem C03_read_at : forall H L, 0 < L -> digest64 H -> collision_free H ->
-  forall s c off want r,
+Theorem C03_read_at : forall H L, 0 < L -> digest64 H ->
+  forall s c off want r, nocoll H L (split_leaves L c) ->
   read_at H L (tree_key H L c) s off want = Ok r -> r = firstn want (skipn off c).
 Proof. exact read_at_sound. Qed.
 Print Assumptions C03_read_at.
 
 (* sequential Read with any buffer sizes and any legal leaf-stream behaviour: a read that
    reaches EOF without error delivered exactly the content *)
-Theorem C03_read_seq : forall H L, 0 < L -> digest64 H -> collision_free H ->
-  forall s c bufs orc r,
+Theorem C03_read_seq : forall H L, 0 < L -> digest64 H ->
+  forall s c bufs orc r, nocoll H L (split_leaves L c) ->
   read_seq H L (tree_key H L c) s bufs orc = Ok r -> r = c.
 Proof. exact read_seq_sound. Qed.
 Print Assumptions C03_read_seq.
 
 (* streaming to a WriterAt (the download path), leaves copied in any order: a copy that succeeds
    left exactly the content in the destination *)
-Theorem C03_write_to_at : forall H L, 0 < L -> digest64 H -> collision_free H ->
-  forall s c ks jobs f',
+Theorem C03_write_to_at : forall H L, 0 < L -> digest64 H ->
+  forall s c ks jobs f', nocoll H L (split_leaves L c) ->
   leaves_for_hash H L (tree_key H L c) s = Some ks ->
   (forall j, In j jobs <-> In j (index_from 0 ks)) ->
   write_to_at H L s (length ks) jobs [] = Ok f' ->
